@@ -12,6 +12,13 @@ static TableSpec catalogue(int id) {
 	TableSpec s; Rng rng(1000 + id);
 	static const int dims[] = {1, 1, 2, 2, 3, 4, 5, 2};
 	static const int target[] = {4, 400, 30, 2500, 700, 1500, 3000, 200000};
+	if (id == 17) {   // 2400 x 20 coefficients: more data than cfitsio buffers, and a first knot vector of seven blocks - blocks written
+		              // earlier are evicted (written to disk) while KNOTS0 is being written, so an error can surface in that very call
+		s.ndim = 2; s.order = {2, 1}; const int nax[2] = {2400, 20};
+		for (int d = 0; d < 2; d++) { std::vector<double> k; double v = -1; for (int j = 0; j < nax[d] + (int)s.order[d] + 1; j++) { k.push_back(v); v += 0.5 + rng.unit(); } s.knots.push_back(k); }
+		s.coeffs.resize(s.ncoeffs()); for (auto& c : s.coeffs) c = (float)rng.range(-4, 4);
+		return s;
+	}
 	if (id == 16) {   // 40 x 359 coefficients, orders 2 and 3: the second knot vector ends three entries into its last block
 		s.ndim = 2; s.order = {2, 3}; const int nax[2] = {40, 359};
 		for (int d = 0; d < 2; d++) { std::vector<double> k; double v = -1; for (int j = 0; j < nax[d] + (int)s.order[d] + 1; j++) { k.push_back(v); v += 0.5 + rng.unit(); } s.knots.push_back(k); }
